@@ -1006,3 +1006,248 @@ func TestC16Inconsistent(t *testing.T) {
 			"inconsistent-notifications", fmt.Sprintf("inconsistent:tampered:%d", atomic.LoadInt32(&tampered)))
 	})
 }
+
+type c16OutageCase struct {
+	Monitors  []monSpec `json:"monitors"`
+	TimeoutMs int       `json:"reconnectTimeoutMs"`
+	OutageMs  int       `json:"outageMs"`
+	During    []string  `json:"foreignDuringOutage"`
+}
+
+// TestC16Outage: the endpoint stays unreachable for longer than the time the client allows
+// one reconnection attempt (several times longer), other clients change the database
+// meanwhile, then the endpoint comes back: the client reconnects and converges.
+func TestC16Outage(t *testing.T) {
+	w := c16World(t)
+	rapid.Check(t, func(t *rapid.T) {
+		sc := genC16Scenario(t)
+		kase := c16OutageCase{Monitors: sc.Monitors, TimeoutMs: rapid.SampledFrom([]int{60, 120}).Draw(t, "timeoutms")}
+		kase.OutageMs = kase.TimeoutMs * rapid.IntRange(2, 4).Draw(t, "outagefactor")
+		fail := func(class, format string, args ...interface{}) {
+			kit.Fail(t, "C16", class, kase, format, args...)
+		}
+		srv, err := kit.StartServer(w)
+		if err != nil {
+			t.Fatalf("server: %v", err)
+		}
+		defer srv.Close()
+		px, err := kit.StartProxy(srv.Sock)
+		if err != nil {
+			t.Fatalf("proxy: %v", err)
+		}
+		defer px.Close()
+		bg := context.Background()
+		direct, err := kit.NewClient(w, srv.Endpoint())
+		if err != nil {
+			t.Fatalf("client: %v", err)
+		}
+		if err := direct.Connect(bg); err != nil {
+			t.Fatalf("connect: %v", err)
+		}
+		defer direct.Close()
+		c, err := kit.NewClient(w, px.Endpoint(), client.WithReconnect(time.Duration(kase.TimeoutMs)*time.Millisecond, backoff.NewConstantBackOff(5*time.Millisecond)))
+		if err != nil {
+			t.Fatalf("client: %v", err)
+		}
+		if err := c.Connect(bg); err != nil {
+			t.Fatalf("connect: %v", err)
+		}
+		defer c.Close()
+		for _, ms := range sc.Monitors {
+			ctx, cancel := context.WithTimeout(bg, 20*time.Second)
+			_, err := c.Monitor(ctx, buildMonitor(w, c, ms))
+			cancel()
+			if err != nil {
+				fail("monitor.error", "Monitor: %v", err)
+			}
+		}
+		fresh := 0
+		var rows []string
+		foreign := func() string {
+			fresh++
+			kind := "insert"
+			var ops []kit.Op
+			if len(rows) > 0 && fresh%3 == 0 {
+				kind = "delete"
+				u := rows[0]
+				rows = rows[1:]
+				ops = []kit.Op{{Op: "delete", Table: "T0", Where: []kit.Cond{{Col: "_uuid", Fn: "==", Val: kit.Scalar(kit.UUID(u))}}}}
+			} else {
+				u := kit.MkUUID(5000 + fresh)
+				rows = append(rows, u)
+				ops = []kit.Op{{Op: "insert", Table: "T0", UUID: u, Row: kit.Row{"marker": kit.Scalar(kit.Str(fmt.Sprintf("f%d", fresh)))}},
+					{Op: "insert", Table: "T1", Row: kit.Row{"name": kit.Scalar(kit.Str(fmt.Sprintf("n%d", fresh))), "peer": kit.Scalar(kit.UUID(u))}},
+					{Op: "insert", Table: "T2", Row: kit.Row{"v": kit.Scalar(kit.Real(float64(fresh)))}}}
+			}
+			ctx, cancel := context.WithTimeout(bg, 20*time.Second)
+			defer cancel()
+			if _, err := kit.TransactOps(ctx, w, direct, ops); err != nil {
+				fail("harness.direct", "foreign transaction failed: %v", err)
+			}
+			return kind
+		}
+		foreign()
+		foreign()
+		px.SetDown(true)
+		t0 := time.Now()
+		for i, n := 0, rapid.IntRange(1, 4).Draw(t, "nduring"); i < n; i++ {
+			kase.During = append(kase.During, foreign())
+		}
+		if rest := time.Duration(kase.OutageMs)*time.Millisecond - time.Since(t0); rest > 0 {
+			time.Sleep(rest)
+		}
+		px.SetDown(false)
+		deadline := time.Now().Add(20 * time.Second)
+		var diffs []string
+		for {
+			diffs = nil
+			ctx, cancel := context.WithTimeout(bg, 20*time.Second)
+			_, err := kit.TransactOps(ctx, w, direct, []kit.Op{{Op: "insert", Table: "T2", Row: kit.Row{"v": kit.Scalar(kit.Real(-1))}}})
+			cancel()
+			if err != nil {
+				fail("harness.direct", "barrier: %v", err)
+			}
+			db, err := srv.Snapshot()
+			if err != nil {
+				t.Fatalf("snapshot: %v", err)
+			}
+			if c.Connected() && c.Cache() != nil {
+				diffs = compareAll(w, c, db, sc.Monitors)
+			} else {
+				diffs = []string{"client not connected"}
+			}
+			if len(diffs) == 0 || time.Now().After(deadline) {
+				break
+			}
+			time.Sleep(10 * time.Millisecond)
+		}
+		if len(diffs) > 0 {
+			fail("resync.cache-differs", "20 s after an outage of %d ms (reconnect timeout %d ms) the client has not caught up:\n%s", kase.OutageMs, kase.TimeoutMs, strings.Join(diffs, "\n"))
+		}
+		kit.Record("C16", "outage|"+string(kit.MustJSON(kase)), true, func() interface{} { return kase }, "outage-longer-than-reconnect-timeout")
+	})
+}
+
+type c16SilentCase struct {
+	Monitors    []monSpec `json:"monitors"`
+	StallAtK    int       `json:"connectionGoesSilentAfterServerMessage"`
+	AppDeadline string    `json:"applicationTransactDeadline"`
+}
+
+// TestC16Silent: the peer goes silent (the connection stays open, nothing comes back) while
+// the application keeps issuing transactions with deadlines shorter than the inactivity
+// timeout. The inactivity probe must still notice the silence: the client opens a new
+// connection, re-establishes its monitors and converges.
+func TestC16Silent(t *testing.T) {
+	w := c16World(t)
+	rapid.Check(t, func(t *rapid.T) {
+		sc := genC16Scenario(t)
+		kase := c16SilentCase{Monitors: sc.Monitors}
+		fail := func(class, format string, args ...interface{}) {
+			kit.Fail(t, "C16", class, kase, format, args...)
+		}
+		srv, err := kit.StartServer(w)
+		if err != nil {
+			t.Fatalf("server: %v", err)
+		}
+		defer srv.Close()
+		px, err := kit.StartProxy(srv.Sock)
+		if err != nil {
+			t.Fatalf("proxy: %v", err)
+		}
+		defer px.Close()
+		px.AckWhileStalled = true
+		bg := context.Background()
+		direct, err := kit.NewClient(w, srv.Endpoint())
+		if err != nil {
+			t.Fatalf("client: %v", err)
+		}
+		if err := direct.Connect(bg); err != nil {
+			t.Fatalf("connect: %v", err)
+		}
+		defer direct.Close()
+		const inactivity = 150 * time.Millisecond
+		c, err := kit.NewClient(w, px.Endpoint(), client.WithInactivityCheck(inactivity, 2*time.Second, backoff.NewConstantBackOff(3*time.Millisecond)))
+		if err != nil {
+			t.Fatalf("client: %v", err)
+		}
+		if err := c.Connect(bg); err != nil {
+			t.Fatalf("connect: %v", err)
+		}
+		defer c.Close()
+		for _, ms := range sc.Monitors {
+			ctx, cancel := context.WithTimeout(bg, 20*time.Second)
+			_, err := c.Monitor(ctx, buildMonitor(w, c, ms))
+			cancel()
+			if err != nil {
+				fail("monitor.error", "Monitor: %v", err)
+			}
+		}
+		insert := func(i int) {
+			ctx, cancel := context.WithTimeout(bg, 20*time.Second)
+			defer cancel()
+			if _, err := kit.TransactOps(ctx, w, direct, []kit.Op{{Op: "insert", Table: "T0", Row: kit.Row{"marker": kit.Scalar(kit.Str(fmt.Sprintf("f%d", i)))}},
+				{Op: "insert", Table: "T2", Row: kit.Row{"v": kit.Scalar(kit.Real(float64(i)))}}}); err != nil {
+				fail("harness.direct", "foreign transaction failed: %v", err)
+			}
+		}
+		insert(1)
+		// the connection goes silent with the next message from the server
+		kase.StallAtK = px.Counts(0)[kit.S2C] + 1
+		px.AddFault(kit.Fault{Dir: kit.S2C, K: 0, Mode: "stall", OnConn: 0})
+		appDeadline := time.Duration(rapid.SampledFrom([]int{20, 40, 60}).Draw(t, "appdeadlinems")) * time.Millisecond
+		kase.AppDeadline = appDeadline.String()
+		stopApp := make(chan struct{})
+		appDone := make(chan struct{})
+		go func() {
+			defer close(appDone)
+			for i := 0; ; i++ {
+				select {
+				case <-stopApp:
+					return
+				default:
+				}
+				ctx, cancel := context.WithTimeout(bg, appDeadline)
+				_, _ = c.Transact(ctx, ovsdb.Operation{Op: "select", Table: "T2", Where: []ovsdb.Condition{}})
+				cancel()
+			}
+		}()
+		insert(2) // its notification is the message that turns the connection silent
+		insert(3)
+		// a second connection must appear although the application never stops transacting
+		deadline := time.Now().Add(15 * time.Second)
+		for px.Connections() < 2 {
+			if time.Now().After(deadline) {
+				close(stopApp)
+				<-appDone
+				fail("reconnect.never", "15 s after the peer went silent (inactivity timeout %v, the application keeps calling Transact with %v deadlines) the client has not opened a new connection", inactivity, appDeadline)
+			}
+			time.Sleep(2 * time.Millisecond)
+		}
+		close(stopApp)
+		<-appDone
+		deadline = time.Now().Add(20 * time.Second)
+		var diffs []string
+		for {
+			diffs = nil
+			insert(100)
+			db, err := srv.Snapshot()
+			if err != nil {
+				t.Fatalf("snapshot: %v", err)
+			}
+			if c.Connected() && c.Cache() != nil {
+				diffs = compareAll(w, c, db, sc.Monitors)
+			} else {
+				diffs = []string{"client not connected"}
+			}
+			if len(diffs) == 0 || time.Now().After(deadline) {
+				break
+			}
+			time.Sleep(10 * time.Millisecond)
+		}
+		if len(diffs) > 0 {
+			fail("resync.cache-differs", "after the silent connection was replaced the cache does not converge:\n%s", strings.Join(diffs, "\n"))
+		}
+		kit.Record("C16", "silent|"+string(kit.MustJSON(kase)), true, func() interface{} { return kase }, "silent-peer-with-busy-application")
+	})
+}
